@@ -243,6 +243,12 @@ def decodeFilename (terminate : Bool) (buf : Bytes) : Except Err Bytes :=
     | none => .error .canon
     | some r => .ok r
 
+/-- how a name is written between quotes (the inverse of the quoted branch of `decode_filename`): a backslash
+before every quote and every backslash -/
+def escapeName : Bytes → Bytes
+  | [] => []
+  | c :: t => if c = QUOTE ∨ c = BSL then BSL :: c :: escapeName t else c :: escapeName t
+
 /-! ## one sort-file line -/
 
 structure SortLine where
